@@ -102,6 +102,14 @@ def positive_evidence(p, a):
 
 undecided = collections.Counter()
 
+def check_I5_established(eng, prop):
+    """I5 at its only source: CreateBid admits a fee only in the bid's own quote denomination (the conversion of old-format bids copies both)"""
+    for p in eng.paths('execute', 'ok', 'CreateBid'):
+        fee = M('CreateBid', 'fee')
+        if p.variant_of(fee) == 'Some':
+            eng.ob(p.holds(EQ(F(SOMEV(fee), 'denom'), M('CreateBid', 'quote')), True) is not None, prop, 'I5-established', 'CreateBid',
+                   'a bid is admitted without requiring fee.denom == quote denom; the fee is escrowed with the quote, later fee transfers name fee.denom and choose the mechanism from the quote denomination\'s marker type', where=p, detail=p.describe(12))
+
 def run(eng, tier):
     undecided.clear()
     contexts = set(); nmsg = 0; kinds = collections.Counter()
@@ -170,11 +178,7 @@ def run(eng, tier):
                                    p.variant, K(tr['from']), K(tr['admin'])), where=call_site)
                 contexts.add((tuple(hsite), tr['mech']))
     # premise of I5 (used above to relate a bid's fee denomination to its quote denomination): admission enforces it
-    for p in eng.paths('execute', 'ok', 'CreateBid'):
-        fee = M('CreateBid', 'fee')
-        if p.variant_of(fee) == 'Some':
-            eng.ob(p.holds(EQ(F(SOMEV(fee), 'denom'), M('CreateBid', 'quote')), True) is not None, PROP, 'I5-established', 'CreateBid',
-                   'a bid is admitted without requiring fee.denom == quote denom; later fee transfers choose the mechanism from the quote denomination\'s marker type', where=p, detail=p.describe(12))
+    check_I5_established(eng, PROP)
     # spec floor: every fund-moving request kind has at least one message on some successful path
     movers = ['CreateAsk', 'CreateBid', 'ApproveAsk', 'CancelAsk', 'CancelBid', 'ExpireAsk', 'ExpireBid', 'RejectAsk', 'RejectBid', 'ExecuteMatch']
     for v in movers:
